@@ -604,6 +604,16 @@ def rules(rep, m):
     from . import siftrules
     siftrules.check_sifts(rep, rs, m)
 
+    # R-C01-9 ------------------------------------------------------------
+    r9 = rep.rule("R-C01-9", "the pattern operations look at every pending event: the scans of pattern find / count / cancel "
+                  "visit exactly the slots 1 .. heap_count (shared with R-C02-9), and clearing the queue wipes the whole hash "
+                  "map of the current size, so that no handle of a cleared event is still found (shared with R-C02-5)", floor=4)
+    siftrules.check_scans(rep, r9, m, only={"cmb_event_pattern_cancel", "cmi_hashheap_pattern_find", "cmi_hashheap_pattern_count",
+                                            "cmi_hashheap_pattern_cancel"})
+    from . import c02
+    c02.layout_rules(rep, r9, m, clear_only=True)
+
+
 
 def _root_var(n):
     """Root variable (DeclRefExpr node) of an access path expression."""
